@@ -185,6 +185,16 @@ def file_key(fname, root="x", ver="1"):
     return word[:-1] if word.endswith("s") else word
 
 
+def _lib_asms(sc):
+    from tola.assembly.build_assembly import BuildAssembly
+    from tola.assembly.gap import Gap
+    ia, p = build_objects(sc)
+    ba = BuildAssembly("o", default_gap=Gap(200, "scaffold"), autosome_prefix=sc.get("prefix") or "SUPER_")
+    ba.remap_to_input_assembly(p, ia)
+    return [{"key": k or "", "curated": 1 if a.curated else 0, "chr": 1 if any(s.rank in (1, 2) for s in a.scaffolds) else 0}
+            for k, a in ba.assemblies_with_scaffolds_fused().items()]
+
+
 def run_scenario_cli(sc):
     """the same scenario through the pretext-to-asm command line: input assembly and Pretext map written as AGP files, every output AGP read back;
     the trace has the shape of run_scenario's (style 'cli...' marks it), plus the numbers of the info yaml and of the 'Curation made' log line"""
@@ -268,6 +278,10 @@ def run_scenario_cli(sc):
             t["inkeys"] = [inkey(s) for s in sc["input"]]
             t["haplotig_scaffolds_written"] = hap_written
             t["files"] = sorted(f.name for f in out.iterdir())
+            # the assemblies the library returns for the same scenario (OutputFiles.tla names the files they should be written to)
+            lib = C.guarded(lambda _: _lib_asms(sc), None, 20.0)
+            if lib[0] == "ok":
+                t["lib_asms"] = lib[1]
     finally:
         shutil.rmtree(d, ignore_errors=True)
     return t
